@@ -223,10 +223,10 @@ prop("C16", run="^TestC16", level="fault_enumeration",
           "server-connection Close, server Close, context cancel, peer TCP close/reset} injected after each of the 5 step boundaries: the full (peer x fault x boundary x version in {4,5,DSE2}) matrix every run, plus rapid-generated sessions, plus rapid-generated schedules (yield / sleep / wait-until-point-reached, bounded 300 ms) "
           "at 13 hook points of the client package. (C) faults in the MIDDLE of the handshake: a library server connection blocked in AcceptHandshake (raw client silent, after OPTIONS/SUPPORTED, or after STARTUP/AUTHENTICATE) or a library client blocked in InitiateHandshake (raw server silent after STARTUP or after AUTH_RESPONSE) x {peer FIN, peer RST, own Close, server Close, context cancel} x version x auth: "
           "the blocked call returns a non-nil error, Close returns, no goroutine survives. (D) timeout clause on a real connection: ReadTimeout drawn independently of ConnectTimeout (150-600 ms vs 20-60 s with a silent raw peer: the request fails with a timeout after >= 80 % and < read timeout + 8 s; 3-4 s vs 250-400 ms with an answer at 20-30 %: it is delivered). "
-          "(E) the helper PerformHandshake with wrong credentials or a fault (client Close, server-connection Close, server Close, context cancel) 0-20 ms into it, and a server closed while an Accept is pending for a client it has not accepted: calls return, no goroutine survives, no panic. After the handler is closed IsDone/Err/Incoming of completed requests still return. One session in three uses caller-chosen stream ids outside 1..MaxInFlight (2000, -7, 32767). Worker-isolated. Oracle within 10 s: every accepted unanswered request has its channel closed, IsDone() and Err()!=nil; blocked receivers return; later Send fails; Close returns (twice, concurrently); no goroutine of the client package survives; no panic. "
+          "(F) Send racing with the end of the connection: 1-4 goroutines per side call Send without pause while the connection is closed from either end (5-25 rounds per case); no panic, every call returns. (E) the helper PerformHandshake with wrong credentials or a fault (client Close, server-connection Close, server Close, context cancel) 0-20 ms into it, and a server closed while an Accept is pending for a client it has not accepted: calls return, no goroutine survives, no panic. After the handler is closed IsDone/Err/Incoming of completed requests still return. One session in three uses caller-chosen stream ids outside 1..MaxInFlight (2000, -7, 32767). Worker-isolated. Oracle within 10 s: every accepted unanswered request has its channel closed, IsDone() and Err()!=nil; blocked receivers return; later Send fails; Close returns (twice, concurrently); no goroutine of the client package survives; no panic. "
           "Non-trivial = the fault lands with an unanswered request, a blocked receiver or before the script's end; distinct by session spec",
      assumptions=["all time bounds are generous upper bounds (10 s against sub-second behaviour); only 'still not done after the bound' or a panic counts",
-                  "the window inside Send's select statement (operand evaluated, channel closed by Close, then send) has no hook point and is only reachable by stress repetition"],
+                  "the window inside Send's select statement (operand evaluated, channel closed by Close, then send) has no hook point and is only reachable by stress repetition (TestC16SendCloseRace; the defect behind it was found by the thorough tier and repaired)"],
      text="Fault enumeration at every script step boundary, randomised sessions and generated schedules at hook points; liveness is judged with generous bounds, interleavings are sampled.",
      note="Trusted: goroutine accounting by stack inspection; the schedule controller only delays, it never decides a verdict.",
      technique="fault-injection property testing (rapid) with enumerated fault points and generated hook-point schedules; subprocess isolation", design="DESIGN.md 4 C16, 3.9")
